@@ -32,7 +32,7 @@ def gen_job(ctx, j, num, seed, nframes):
 def known_key(v, case):
     """Narrow key of the genuine defect recorded in known_findings.json (anything else still raises)."""
     m = re.match(r"row id (\d+), ", v.get("message", ""))
-    f = re.search(r"RANGE BETWEEN (.*?) AND (\d+ PRECEDING|CURRENT ROW|\d+ FOLLOWING)\)", v.get("sql", ""))
+    f = re.search(r"RANGE BETWEEN (.*?) AND (\d+ PRECEDING)\)", v.get("sql", ""))
     if not m or not f or "BoundedWindowAggExec" not in v.get("plan", ""):
         return None
     rows = {r["id"]: r for r in case["tbl"]}
@@ -59,7 +59,7 @@ def run(ctx):
                                             "rule": "replay of one table through seeded window queries", "samples": [rep["case"]["tbl"]]})
         return
     njobs = 4 if ctx.quick else 8
-    num = 12 if ctx.quick else 150
+    num = 12 if ctx.quick else 40
     with cf.ThreadPoolExecutor(max_workers=4 if ctx.quick else 6) as ex:
         res = list(ex.map(lambda j: gen_job(ctx, j, num, ctx.seed * 1000 + j, 5 if ctx.quick else 8), range(njobs)))
     cases = [c for cs, _ in res for c in cs]
@@ -73,7 +73,7 @@ def run(ctx):
     if len(cases) < 40:
         raise ToolError(f"only {len(cases)} cases generated")
     write_ndjson(ctx.path("cases.ndjson"), cases)
-    run_harness(ctx, "vops2", ["c09", "--in", ctx.path("cases.ndjson"), "--out", ctx.path("res.json"), "--per-case", 14 if ctx.quick else 60],
+    run_harness(ctx, "vops2", ["c09", "--in", ctx.path("cases.ndjson"), "--out", ctx.path("res.json"), "--per-case", 14 if ctx.quick else 25],
                 timeout=5000)
     res = json.load(open(ctx.path("res.json")))
     if res["tool_errors"]:
